@@ -14,8 +14,8 @@ EXPLANATION = (
     "touches the transport must be a read_exact-class call (or a tokio fixed-width read), which collapses the quantifier "
     "over chunkings and Pending interleavings to the documented contract of read_exact."
 )
-TRIPLE_FLOOR = 229
-IO_FLOOR = 8251
+TRIPLE_FLOOR = 200  # sibling groups: helpers may be merged or split by a refactor
+IO_FLOOR = 7000  # transport call sites: call sites may be consolidated into helpers
 
 READ_OK = {"read_exact"}
 TOKIO_FIXED = {"read_u8", "read_i8", "read_u16", "read_u16_le", "read_u32", "read_u32_le", "read_u64", "read_u64_le",
